@@ -174,6 +174,14 @@ class Reconnect(Scenario):
             if stale:
                 out.append(('C17.fresh-connection', 'C17.fresh-connection | %s | stale-request-replayed%s' % (tag, ' | lease' if self.lease else ''),
                             'server %d was asked to serve requests of an earlier connection: %s' % (k, stale)))
+        # each later transport carries a self-contained legal conversation: nothing left over from the previous connection
+        # (queued frames, REQUEST_N / CANCEL / PAYLOAD of old streams) may appear on it
+        from mc import monitors
+        for k in range(1, len(conns)):
+            for rule, sig, detail in monitors.wire_legality(log, conns[k].cname, 'client'):
+                if rule in ('C08.first-frame-is-request', 'C08.setup-first', 'C08.setup-once', 'C08.stream-id-parity'):
+                    out.append(('C17.fresh-connection', 'C17.fresh-connection | %s | %s' % (tag, sig.replace('C08.', '')),
+                                'on transport %d: %s' % (k, detail)))
         for msg, exc, txt in w.loop.read_exc_log():
             out.append(('C17.no-unhandled-exception', 'C17.no-unhandled-exception | %s | %s' % (tag, exc), '%s: %s' % (msg, txt)))
         return out
